@@ -156,6 +156,38 @@ partial def resolveJson (inst : Inst) (o : Nat) (j : Json) : Except String Json 
       | _ => pure j
   | _ => pure j
 
+/-- substitute the iterator and the index of a foreach over a list of objects for element `k` -/
+partial def substIter (listPath : List String) (en : String) (k : Nat) (j : Json) : Json :=
+  match j with
+  | Json.arr a => Json.arr (a.map (substIter listPath en k))
+  | Json.obj kvs =>
+    match j.getObjVal? "k" with
+    | .ok (Json.str "itfld") =>
+        let f := (j.getObjVal? "name").toOption.bind (·.getStr?.toOption) |>.getD "?"
+        Json.mkObj [("k", Json.str "fld"), ("path", Json.arr ((listPath ++ [en, f]).map Json.str).toArray)]
+    | .ok (Json.str "idx") =>
+        -- `ForeachRefExpander`: the index becomes `ExprLiteralModel(i, True, 32)`
+        Json.mkObj [("k", Json.str "lit"), ("v", jNat k), ("s", Json.bool true), ("w", jNat 32)]
+    | _ => Json.mkObj (kvs.toList.map fun (kk, v) => (kk, substIter listPath en k v))
+  | _ => j
+
+/-- `ArrayConstraintBuilder.visit_constraint_foreach` over a list of objects: the body once per
+    element, in order; every other statement stays as it is -/
+def expandForeachO (stmts : Json) : Except String Json := do
+  let mut out : Array Json := #[]
+  for sj in (← stmts.getArr?) do
+    if (getS sj "k").toOption == some "foreach_o" then
+      let lp ← (← getA sj "list").mapM (·.getStr?)
+      let n ← getN sj "n"
+      let lname := lp.getLast?.getD "?"
+      let body ← sj.getObjVal? "body"
+      for k in List.range n do
+        match substIter lp (lname ++ "[" ++ toString k ++ "]") k body with
+        | Json.arr b => out := out ++ b
+        | _ => throw "foreach_o body"
+    else out := out.push sj
+  pure (Json.arr out)
+
 def findObjNode : Node → Nat → Option Node
   | .scalar _ _ _, _ => none
   | .obj id d m ch, t => if id = t then some (.obj id d m ch) else findObjNode ch t
@@ -227,7 +259,7 @@ def handleCall (j : Json) : Except String Json := do
         blockLog := blockLog ++ [Json.mkObj [("obj", Json.str (pathStr oi.path)), ("block", Json.str bn),
           ("enabled", Json.bool en), ("active", Json.bool (en && u))]]
         if en && u then
-          let rj ← resolveJson inst oid stmts
+          let rj ← resolveJson inst oid (← expandForeachO stmts)
           let ss ← (← rj.getArr?).toList.mapM (stmtOf fk)
           tops := tops ++ ss
   match getOpt j "inline" with
